@@ -25,6 +25,16 @@ def _m(e, cls, name):
     return c.methods[name]
 
 
+def _reducers_field(e, clsq):
+    """The field of a loky queue class that its constructor fills from the public `reducers` argument."""
+    ini = e.prog.cls(clsq).methods["__init__"]
+    for n in func_nodes(ini):
+        if isinstance(n, ast.Assign) and isinstance(n.targets[0], ast.Attribute) and isinstance(n.targets[0].value, ast.Name) and n.targets[0].value.id == ini.params[0] \
+                and isinstance(n.value, ast.Name) and n.value.id == "reducers":
+            return n.targets[0].attr
+    raise AnalysisError(f"{clsq}: the field holding the reducers is not recognised")
+
+
 def binder_method(e, cls):
     """The method of `cls` that (re)binds self.acquire / self.release (called by the constructor and by __setstate__)."""
     c = _cls(e, cls)
@@ -259,11 +269,11 @@ def _state_pair(e, R, cq, rule="R-STATE-SYM"):
 def r_state_sym(e, R, which=("Queue", "SimpleQueue", "Condition", "SemLock")):
     if "Queue" in which:
         out = _state_pair(e, R, "loky.backend.queues:Queue")
-        R.check(out is not None and "_reducers" in out, "R-STATE-SYM", "Queue: the reducers travel with the queue", "Queue", "_reducers",
+        R.check(out is not None and _reducers_field(e, "loky.backend.queues:Queue") in out, "R-STATE-SYM", "Queue: the reducers travel with the queue", "Queue", "reducers field",
                 "a queue unpickled in a worker loses its custom reducers", None)
     if "SimpleQueue" in which:
         out = _state_pair(e, R, "loky.backend.queues:SimpleQueue")
-        R.check(out is not None and "_reducers" in out, "R-STATE-SYM", "SimpleQueue: the reducers travel with the queue", "SimpleQueue", "_reducers",
+        R.check(out is not None and _reducers_field(e, "loky.backend.queues:SimpleQueue") in out, "R-STATE-SYM", "SimpleQueue: the reducers travel with the queue", "SimpleQueue", "reducers field",
                 "the result queue unpickled in a worker loses its custom reducers: results are pickled with the default reducers", None)
     if "Condition" in which:
         _state_pair(e, R, f"{SY}:Condition")
